@@ -78,6 +78,7 @@ TYPE_LEN = {
     MsgC2S.FRAMEBUFFER_UPDATE_REQUEST: 10,
     MsgC2S.KEY_EVENT: 8,
     MsgC2S.POINTER_EVENT: 6,
+    MsgC2S.CLIENT_CUT_TEXT: 8,
     MsgC2S.QEMU_CLIENT_MESSAGE: 1,
 }
 
@@ -167,7 +168,8 @@ class RFBServer(Protocol):  # type: ignore[misc]
             buttonmask, x, y = unpack("!BHH", block)
             self.handle_pointerEvent(x, y, buttonmask)
         elif ptype == MsgC2S.CLIENT_CUT_TEXT:
-            self.handle_clientCutText(block)
+            (length,) = unpack("!xxxI", block)
+            self._handler = partial(self._handle_clientCutText, length), length
         elif ptype == MsgC2S.QEMU_CLIENT_MESSAGE:
             (subtype,) = unpack("!B", block)
             if subtype == QemuClientMessage.EXTENDED_KEY_EVENT:
@@ -186,6 +188,12 @@ class RFBServer(Protocol):  # type: ignore[misc]
         for encoding in encodings:
             log.debug(f"Client announces {Encoding.lookup(encoding)!r}")
         self.handle_setEncodings(encodings)
+        self._handler = self._handle_protocol, 1
+
+    def _handle_clientCutText(self, length: int) -> None:
+        text = bytes(self.buffer[:length])
+        del self.buffer[:length]
+        self.handle_clientCutText(text)
         self._handler = self._handle_protocol, 1
 
     def _handle_qemuExtendedKeyEvent(self) -> None:
